@@ -1076,6 +1076,7 @@ func main() {
 	o := hx.ParseFlags()
 	w := hx.NewWriter(o)
 	defer w.Close()
+	hx.Watchdog(w, 150*time.Second) // a store operation that never returns (a lost lock) must not cost the whole run
 
 	// catalogue: expiry as Get and Store see it (runs in the background, about 6 s)
 	var bg sync.WaitGroup
